@@ -64,24 +64,47 @@ Theorem C20_destroy_balanced : forall P, 1 <= pS P -> forall st, Inv P st ->
 Proof. exact finish_ok. Qed.
 Print Assumptions C20_destroy_balanced.
 
-(* operator== and operator< read only constructed elements and are list
-   equality / the lexicographic order of the abstract values *)
+(* operator== and operator< read only constructed elements; == is "same size
+   and the ELEMENT operator== holds pointwise" (std::equal), < is
+   std::lexicographical_compare with the element operator<.  The element
+   comparisons peq / plt are arbitrary functions of the parameters, so this
+   covers double with its IEEE comparisons (+0.0 == -0.0, NaN != NaN: vectors
+   holding a NaN are not equal to themselves, exactly as std::vector<double>);
+   when the element operator== is equality of values, == is list equality *)
 Theorem C20_compare_is_list_compare : forall P a b xs ys,
   sv_inv P a -> sv_inv P b -> abs a = Some xs -> abs b = Some ys ->
-  sv_eq a b = Ok (list_eqb xs ys) /\ sv_lt a b = Ok (lex_ltb xs ys) /\
-  (list_eqb xs ys = true <-> xs = ys).
+  sv_eq P a b = Ok (list_eqb (peq P) xs ys) /\ sv_lt P a b = Ok (lex_ltb (plt P) xs ys) /\
+  (list_eqb (peq P) xs ys = true <-> Forall2 (fun x y => peq P x y = true) xs ys) /\
+  ((forall x y, peq P x y = true <-> x = y) -> (list_eqb (peq P) xs ys = true <-> xs = ys)).
 Proof.
   intros P a b xs ys Ha Hb Hx Hy.
   destruct (compare_ok P a b xs ys Ha Hb Hx Hy) as (H1 & H2).
-  split; [exact H1|split; [exact H2|exact (list_eqb_eq xs ys)]].
+  split; [exact H1|split; [exact H2|split; [exact (list_eqb_Forall2 (peq P) xs ys)|]]].
+  intro Heq. exact (list_eqb_eq (peq P) Heq xs ys).
 Qed.
 Print Assumptions C20_compare_is_list_compare.
+
+(* the double class: an IEEE-like element equality on value codes (code 100001
+   is -0.0, codes 100002 / 100003 are two NaNs) -- a vector holding a NaN is not
+   equal to itself, and vectors differing only in the sign of a zero are equal *)
+Definition is_nan_code (x : Z) : bool := Z.eqb x 100002 || Z.eqb x 100003.
+Definition zero_code (x : Z) : Z := if Z.eqb x 100001 then 0%Z else x.
+Definition peq_ieee (x y : Z) : bool :=
+  negb (is_nan_code x) && negb (is_nan_code y) && Z.eqb (zero_code x) (zero_code y).
+
+Example C20_nan_vector_differs_from_itself :
+  list_eqb peq_ieee [1; 100002; 3]%Z [1; 100002; 3]%Z = false.
+Proof. reflexivity. Qed.
+
+Example C20_zero_sign_is_ignored :
+  list_eqb peq_ieee [1; 0; 3]%Z [1; 100001; 3]%Z = true.
+Proof. reflexivity. Qed.
 
 (* non-vacuity: scripts that cross the inline/heap boundary both ways run to
    the end (so Inv and valid_op are satisfiable along them), for a trivial and
    a non-trivial element type; an invalid position is reported as Invalid *)
-Definition P_int (S : nat) : params := mkParams S true 0%Z (fun x => x).
-Definition P_str (S : nat) : params := mkParams S false 0%Z (fun _ => 0%Z).
+Definition P_int (S : nat) : params := mkParams S true 0%Z (fun x => x) Z.eqb Z.ltb.
+Definition P_str (S : nat) : params := mkParams S false 0%Z (fun _ => 0%Z) Z.eqb Z.ltb.
 
 Definition script1 : list op :=
   [CtorList false [1; 2; 3]%Z; PushBack false 4%Z; Insert false 1 [7; 8; 9]%Z; PushBackSelf false 0;
